@@ -69,6 +69,8 @@ def gen_cases(tier, seed):
                 else [])),
             "gzip": rnd.random() < 0.5,
             "via": rnd.choice(["lib", "lib", "cli"])})
+    for k in range(n // 4):
+        cases.append({"compact": True, "mseed": rnd.randrange(2 ** 32)})
     return cases
 
 
@@ -110,7 +112,48 @@ def _affine(np, case):
     return A
 
 
+def run_compact(case):
+    """matrix_as_compact_urlsafe_json on matrices with entries of every magnitude: the string
+    must contain no comma / space and parse back (after '_' -> ',') to exactly the matrix."""
+    from neuroglancer_scripts import transform as tr
+    rnd = random.Random(case["mseed"])
+    obs = {"compact_matrices": 1, "compact_entries_with_exponent": 0}
+    v = []
+
+    def entry():
+        r = rnd.random()
+        if r < 0.2:
+            return float(rnd.randint(-5, 5))
+        if r < 0.3:
+            return rnd.choice([0.0, -0.0, 1.0, -1.0, 1e6, 1000000.0, 123456789.0])
+        if r < 0.6:
+            mant = rnd.choice([1.0, 2.5, 1.25, 9.5, rnd.uniform(1, 10), 3.0, 7.75])
+            return mant * 10.0 ** rnd.choice([-30, -20, -17, -16, -10, -9, -5, -4, 5, 10, 15,
+                                              16, 17, 20, 21, 22, 30, 100, -100])
+        return rnd.uniform(-1, 1) * 10.0 ** rnd.randint(-12, 12)
+    M = [[entry() for _ in range(4)] for _ in range(4)]
+    try:
+        comp = tr.matrix_as_compact_urlsafe_json(M)
+    except Exception as exc:  # noqa: BLE001
+        return {"violations": [{"kind": "compact-form-raised",
+                                "detail": f"{M}: {type(exc).__name__}: {exc}"}], "obs": obs}
+    if "e" in comp or "E" in comp:
+        obs["compact_entries_with_exponent"] = 1
+    try:
+        back = json.loads(comp.replace("_", ","))
+        same = all(float(back[i][j]) == float(M[i][j]) for i in range(4) for j in range(4))
+    except Exception:  # noqa: BLE001
+        same = False
+    if not same or "," in comp or " " in comp:
+        v.append({"kind": "compact-transform-does-not-parse-back",
+                  "detail": f"matrix {M} -> {comp!r}"})
+    return {"violations": v, "obs": obs, "sigs": [f"compact|{case['mseed']}"],
+            "sample": {"compact_matrix_row": M[0], "compact": comp[:80]}}
+
+
 def run_case(case):
+    if case.get("compact"):
+        return run_compact(case)
     import nibabel
     import numpy as np
     from neuroglancer_scripts import transform as tr
@@ -159,6 +202,21 @@ def run_case(case):
                     options=opts)
                 info = json.loads(finfo)
                 status = 4 if imp else 0
+                # the image handed in must not be modified, and asking again (e.g. with
+                # other options) must give the same geometry
+                if not np.array_equal(np.array(img2.affine, dtype=float), Aff):
+                    v.append({"kind": "input-image-affine-modified",
+                              "detail": f"{ctx}: img.affine changed by the call"})
+                finfo2, jt2, _, _ = volume_reader.nibabel_image_to_info(
+                    img2, ignore_scaling=case["ignore"], input_max=case["input_max"],
+                    options={})
+                obs["repeated_calls_on_one_image"] = 1
+                i2 = json.loads(finfo2)
+                if i2["scales"][0]["resolution"] != info["scales"][0]["resolution"] \
+                        or not np.array_equal(np.array(jt2, float), np.array(jt, float)):
+                    v.append({"kind": "second-call-on-the-same-image-differs",
+                              "detail": f"{ctx}: resolution {i2['scales'][0]['resolution']} "
+                              f"vs {info['scales'][0]['resolution']}"})
             else:
                 dest = os.path.join(top, "out")
                 argv = ["volume-to-precomputed", fn, dest, "--generate-info"]
@@ -294,6 +352,8 @@ def gates(obs, tier):
         "voxels_checked": obs.get("voxels_checked", 0) > 1000,
         "imperfect_status_seen": obs.get("imperfect_status", 0) > 10,
         "mirroring_affines": obs.get("negative_det", 0) > 10,
+        "compact_forms_with_exponents": obs.get("compact_entries_with_exponent", 0) > 50,
+        "repeated_calls_on_one_image": obs.get("repeated_calls_on_one_image", 0) > 50,
         "sharding_strings_valid_and_malformed": obs.get("sharding_valid", 0) > 5
         and obs.get("sharding_malformed_refused", 0) > 5,
     }
